@@ -16,6 +16,7 @@ type cloner struct {
 	at    token.Pos                 // when valid, copied leaf nodes are positioned here (copy placed at a use site)
 	onLit func(old, new *ast.FuncLit)
 	depth int
+	markAlias bool // the substitution is the canonicaliser's alias replacement (recorded in substOrigin for the path facts)
 	// foreignSubst: the substituted expressions come from other syntax (the caller's arguments, when a
 	// callee body is copied): they are looked up in substSrc and only substNested applies inside them.
 	foreignSubst bool
@@ -82,7 +83,7 @@ func (c *cloner) Expr(e ast.Expr) ast.Expr {
 		if c.subst != nil && c.depth < 8 {
 			if obj := src.Uses[x]; obj != nil {
 				if rep, ok := c.subst[obj]; ok {
-					sub := &cloner{info: c.info, src: c.substSrc, subst: c.substNested, at: x.Pos(), onLit: c.onLit, depth: c.depth + 1}
+					sub := &cloner{info: c.info, src: c.substSrc, subst: c.substNested, at: x.Pos(), onLit: c.onLit, depth: c.depth + 1, markAlias: c.markAlias}
 					if !c.foreignSubst {
 						sub.src, sub.subst = c.src, c.subst
 					}
@@ -98,7 +99,9 @@ func (c *cloner) Expr(e ast.Expr) ast.Expr {
 						c.regExpr(rep, p)
 						out = p
 					}
-					substOrigin[out] = x
+					if c.markAlias {
+						substOrigin[out] = x
+					}
 					return out
 				}
 			}
